@@ -108,7 +108,7 @@ class Fn:
         self.name = self.path.split('::')[-1] if '{closure' not in self.path.split('::')[-1] else self.path.split('::')[-1]
         mi = re.search(r'<impl at (src/[^:]+):(\d+):(\d+): (\d+):(\d+)>', self.path)
         self.impl_at = (mi.group(1), int(mi.group(2))) if mi else None
-        self.self_ty = self.trait = None
+        self.self_ty = self.trait = self.trait_full = None
 
     def parse(self):
         if self.blocks is not None: return
@@ -149,7 +149,7 @@ class MirDump:
         self._src = {}
         for f in self.fns.values():
             if f.impl_at:
-                f.self_ty, f.trait = self._impl_header(*f.impl_at)
+                f.self_ty, f.trait, f.trait_full = self._impl_header(*f.impl_at)
             self.by_name.setdefault(f.name, []).append(f)
         self.closures = {}
         for f in self.fns.values():
@@ -165,19 +165,19 @@ class MirDump:
 
     def _impl_header(self, rel, line):
         ls = self._lines(rel)
-        if line - 1 >= len(ls): return (None, None)
+        if line - 1 >= len(ls): return (None, None, None)
         text = ' '.join(ls[line - 1:line + 3])
         m = re.match(r'\s*(?:unsafe )?impl(?:<[^>]*>)?\s+(?:(.+?)\s+for\s+)?([^{]+?)\s*(?:where|\{)', text)
         if m:
             tr = m.group(1); ty = m.group(2).strip()
-            return (strip_all_generics(ty).replace("&'_ ", '&').strip(), strip_all_generics(tr).strip() if tr else None)
+            return (strip_all_generics(ty).replace("&'_ ", '&').strip(), strip_all_generics(tr).strip() if tr else None, tr.strip() if tr else None)
         # derive(...) attribute: the trait is the word at the column; self type = next struct/enum
         seg = ls[line - 1]
         if 'derive' in seg:
             for k in range(line, min(line + 30, len(ls))):
                 mm = re.match(r'\s*(?:pub(?:\([a-z]+\))? )?(?:struct|enum) (\w+)', ls[k])
-                if mm: return (mm.group(1), 'derive')
-        return (None, None)
+                if mm: return (mm.group(1), 'derive', 'derive')
+        return (None, None, None)
 
     def _enums(self):
         """variant name -> {enum name: discriminant} for every enum declared in the crate sources."""
@@ -214,6 +214,14 @@ class MirDump:
             tr = tr.split('::')[-1]; ty = ty.split('::')[-1] if not ty.startswith(('&', '[', '(')) else ty
             c = [f for f in self.by_name.get(name, []) if f.self_ty and f.self_ty.split('::')[-1] == ty and f.trait and f.trait.split('::')[-1] == tr]
             if len(c) == 1: return c[0]
+            if len(c) > 1:        # several impls of a generic trait (From<A>, From<B>): compare the last path segment of the trait arguments
+                am = re.search(r'<(.*)>$', m.group(2).strip())
+                if am:
+                    want = strip_all_generics(am.group(1)).replace('&', '').strip().split('::')[-1]
+                    c2 = [f for f in c if f.trait_full and re.search(r'<(.*)>$', f.trait_full) and
+                          strip_all_generics(re.search(r'<(.*)>$', f.trait_full).group(1)).replace('&', '').strip().split('::')[-1] == want]
+                    if len(c2) == 1: return c2[0]
+                return None
             if not c and tr in ('Clone', 'PartialEq', 'Debug', 'Hash', 'Eq', 'Default', 'PartialOrd', 'Ord'):
                 c = [f for f in self.by_name.get(name, []) if f.self_ty == ty and f.trait == 'derive' and self._derive_matches(f, tr)]
                 if len(c) == 1: return c[0]
